@@ -50,6 +50,8 @@ type Gate struct {
 	me      map[uint64]bool // harness goroutines: never held, not recorded as foreign
 	Worker  uint64          // id of the goroutine being held (learnt at the first hold)
 	armed   bool
+	armedAny bool  // one-shot: park the next foreign goroutine that ends a write transaction, whoever it is
+	Handler  uint64 // the goroutine parked by HoldNextForeign (the notification handler)
 	armedB  bool // one-shot: park the first foreign goroutine BEFORE it begins a write transaction
 	held    chan struct{} // non-nil while a goroutine is parked
 	heldEv  Ev
@@ -79,6 +81,11 @@ func (g *Gate) Arm() { g.mu.Lock(); g.armed = true; g.mu.Unlock() }
 // ArmBegin parks the next foreign goroutine that is about to begin a write transaction, before the
 // driver's write lock is taken (one shot). The event of that hold has Seq 0.
 func (g *Gate) ArmBegin() { g.mu.Lock(); g.armedB = true; g.mu.Unlock() }
+
+// HoldNextForeign parks the NEXT foreign goroutine that ends a write transaction (one shot), without
+// taking it for the worker: used to keep the notification handler inside processConnectedBlock —
+// its database commit is done, its volatile tip not yet updated — while a background task is started.
+func (g *Gate) HoldNextForeign() { g.mu.Lock(); g.armedAny = true; g.mu.Unlock() }
 
 // Disarm stops holding (a goroutine already parked stays parked until Release).
 func (g *Gate) Disarm() { g.mu.Lock(); g.armed = false; g.mu.Unlock() }
@@ -157,7 +164,11 @@ func (g *Gate) ended(committed bool) {
 	e := Ev{G: id, Committed: committed, Seq: g.seq}
 	g.Log = append(g.Log, e)
 	hold := false
-	if g.armed {
+	if g.armedAny {
+		g.armedAny = false
+		g.Handler = id
+		hold = true
+	} else if g.armed && id != g.Handler {
 		if g.Worker == 0 {
 			g.Worker = id
 		}
